@@ -18,6 +18,13 @@ Canon(evs, i, acc) ==
   ELSE IF evs[i].res = "none" THEN
        (IF \E j \in (i + 1)..Len(evs) : evs[j].res # "none" THEN Canon(evs, i + 1, acc) ELSE Append(acc, evs[i]))
   ELSE Append(acc, evs[i])
+\* the stream adapter exposes no offsets: items are compared by kind, id and value only
+ResSameNoOff(a, b) == a.res = b.res /\ (a.res = "item" => KidSame(a, b)) /\ (a.res = "err" => ErrSame(a, b))
+RelNoOff(ref, run) ==
+  LET a == Canon(ref, 1, <<>>)  b == Canon(run, 1, <<>>) IN
+  IF Len(a) # Len(b) THEN "C20: the stream yields a different number of results than the blocking iterator"
+  ELSE IF \E i \in 1..Len(a) : ~ResSameNoOff(a[i], b[i]) THEN "C20: a result of the stream differs from the blocking iterator"
+  ELSE ""
 Rel(ref, run) ==
   LET a == Canon(ref, 1, <<>>)  b == Canon(run, 1, <<>>) IN
   IF Len(a) # Len(b) THEN "C04: the scheduled run yields a different number of results than the reference run"
